@@ -84,6 +84,10 @@ Slot == {NPlace, NNum(IntV(7))}
 SlotLists == {sl \in [1..3 -> Slot] : \E i \in 1..3 : sl[i] = NPlace}      \* at least one placeholder: otherwise it is a call
 PartialProgs == {NBlock(<<NAssign("f", F3), NAssign("g", NPartial(V("f"), sl)), NCall(V("g"), args)>>) :
                     sl \in SlotLists, args \in {<<>>, <<NNum(IntV(1))>>, <<NNum(IntV(1)), NNum(IntV(2))>>, <<NNum(IntV(1)), NNum(IntV(2)), NNum(IntV(3))>>, <<NNum(IntV(1)), NNum(IntV(2)), NNum(IntV(3)), NNum(IntV(4))>>}}
+                \* fixed arguments that are paths, predicates and calls on the input
+                \cup {NBlock(<<NAssign("g", NPartial(V(fn), <<NPlace, x>>)), NCall(V("g"), <<y>>)>>) :
+                         fn \in {"append", "power", "substring"}, x \in {PA(<<NName(ka)>>), NPred(PA(<<NName(ka)>>), <<NNum(IntV(0))>>), PA(<<NName(ka), NPred(NVar(""), <<NNum(IntV(1))>>)>>), NCall(V("count"), <<PA(<<NName(ka)>>)>>)},
+                         y \in {NNum(IntV(2)), NStr(<<104, 101, 108, 108, 111, 32, 119, 111, 114, 108, 100>>)}}
                 \cup {NPartial(NNum(IntV(1)), <<NPlace>>), NCall(NPartial(V("substring"), <<NPlace, NNum(IntV(1))>>), <<NStr(<<97, 98, 99>>)>>),
                       NCall(NPartial(NPartial(F3, <<NPlace, NPlace, NNum(IntV(9))>>), <<NNum(IntV(8)), NPlace>>), <<NNum(IntV(5))>>)}
 
